@@ -165,6 +165,7 @@ var kindTypeLits = []string{
 	"(strs 1 2)", "(strs 0 2)", "(strs -5 2)", "(strs 1 " + maxS + ")", "(strs 0 " + maxS + ")", "(strs 2 2)",
 	"(strv x61)", "(strv x62)", "(strv x6162)", "(strv x537472696e67)",
 	"(rx x)", "(rx x61)", "(rx x62)", "(rx x617c62)", "(pat)", "(pat x61)", "(pat x62)", "(pat x61 x62)", "(pat x62 x61)", "(pat x61 x61)", "(pat x61 x61 x62)", "(pat x61 x62 x62)", "(pat x6162)",
+	"(arr unit 0 0)", "(arr unit 0 1)", "(arr any 0 0)", "(arr unit 0 " + maxS + ")", "(tup (unit))",
 	"(tref x466f6f)", "(tref x426172)", "(tref x556e7265736f6c7665645265666572656e6365)", "(tref x)",
 	"semver", "(semver x312e78 (se (ge 1 0 0 x x) (lt 2 0 0 x x)))", "(semver x (se (ge 1 0 0 x x) (lt 2 0 0 x x)))", "(semver x3e3d312e302e30203c322e302e30 (se (ge 1 0 0 x x) (lt 2 0 0 x x)))",
 	"(semver x322e78 (se (ge 2 0 0 x x) (lt 3 0 0 x x)))", "(semver x312e322e33 (eq 1 2 3 x x))", "(semver x (eq 1 2 3 x x))", "(semver x312e78207c7c20332e78 (se (ge 1 0 0 x x) (lt 2 0 0 x x)) (se (ge 3 0 0 x x) (lt 4 0 0 x x)))",
